@@ -274,7 +274,38 @@ theorem runCheckpointed_ok (step : PyTree α σ → G → U × PyTree α σ)
     have hr := restore_same tmpl _ hw (hsame.trans h1.symm)
     have := ih (step s0 g).2 hw (hsame.trans h1.symm)
     simp only [runCheckpointed, hr, this, run]
-end
+/-- resume with an invariant `P` of the reachable states that pins the skeleton -/
+theorem resume_ok_inv (step : PyTree α σ → G → U × PyTree α σ) (P : PyTree α σ → Prop)
+    (tmpl s0 : PyTree α σ) (hP0 : P s0) (hPstep : ∀ s g, P s → P (step s g).2)
+    (hPskel : ∀ s, P s → skeleton s = skeleton s0)
+    (hwf : wf s0 = true) (hsame : skeleton tmpl = skeleton s0)
+    (gs : List G) (k : Nat) :
+    resume step tmpl s0 gs k = .ok (run step s0 gs) := by
+  have hinv : skeleton (run step s0 (gs.take k)).2 = skeleton s0 :=
+    hPskel _ (run_invariant step P hPstep s0 _ hP0)
+  have hw : wf (run step s0 (gs.take k)).2 = true := by rw [wf_of_sameStatic _ _ hinv]; exact hwf
+  have hr := restore_same tmpl _ hw (hsame.trans hinv.symm)
+  have happ := run_append step s0 (gs.take k) (gs.drop k)
+  rw [List.take_append_drop] at happ
+  simp only [resume, hr, happ]
 
+/-- … instantiated with "the layout of the state is the fixed point `L` of the layout step";
+`skel` is the tree shape that layout `L` denotes. -/
+theorem resume_of_layout_fixpoint {Lay E : Type} (layoutOf : PyTree α σ → Lay)
+    (lstep : Lay → Except E Lay) (L : Lay) (hfix : lstep L = .ok L) (skel : PyTree Unit σ)
+    (hskel : ∀ s, layoutOf s = L → skeleton s = skel)
+    (step : PyTree α σ → G → U × PyTree α σ)
+    (hstep : ∀ s g, layoutOf s = L → lstep (layoutOf s) = .ok (layoutOf (step s g).2))
+    (tmpl s0 : PyTree α σ) (h0 : layoutOf s0 = L) (ht : layoutOf tmpl = L) (hwf : wf s0 = true)
+    (gs : List G) (k : Nat) :
+    resume step tmpl s0 gs k = .ok (run step s0 gs) := by
+  refine resume_ok_inv step (fun s => layoutOf s = L) tmpl s0 h0 ?_ ?_ hwf ?_ gs k
+  · intro s g hs
+    have := hstep s g hs
+    rw [hs, hfix] at this
+    exact (Except.ok.inj this).symm
+  · intro s hs; rw [hskel s hs, hskel s0 h0]
+  · rw [hskel tmpl ht, hskel s0 h0]
+end
 
 end PrecondVerif.Ser
